@@ -5,7 +5,7 @@ import os
 from harness import common, gen_tree, trees, treeimpl
 from harness.common import cps, uncps
 
-BRIDGE = ('Gemato.Bridge.Tree', 'Gemato.Bridge.SrcVerify', 'Gemato.Bridge.SrcLoader', 'Gemato.Bridge.SrcWalk', 'Gemato.Bridge.SrcText', 'Gemato.Bridge.SrcCodec')
+BRIDGE = ('Gemato.Bridge.Tree', 'Gemato.Bridge.SrcVerify', 'Gemato.Bridge.SrcLoader', 'Gemato.Bridge.SrcWalk', 'Gemato.Bridge.SrcText', 'Gemato.Bridge.SrcCodec', 'Gemato.Bridge.SrcCli')
 PROPS = ['Gemato.Props.C01', 'Gemato.Props.C01b']
 
 
@@ -122,8 +122,12 @@ def cli_cases(ctx, drv):
             m = gen_tree.mutate_tree(pl, rng, root)
             if m and m[2]:
                 break
-        paths = rng.sample(dirs, min(len(dirs), 3)) or ['']
-        for kg in ((), ('-k',)):
+        paths0 = rng.sample(dirs, min(len(dirs), 3)) or ['']
+        if m and m[2] and os.path.dirname(m[1]) in dirs and os.path.dirname(m[1]) not in paths0:
+            paths0[0] = os.path.dirname(m[1])         # the directory of the mismatch is among the paths asked for
+        import itertools
+        orders = [list(p) for p in itertools.permutations(paths0)]      # the failing path first, in the middle, last
+        for paths, kg in [(paths0, ())] + [(o, ('-k',)) for o in orders]:
             rc = treeimpl.cli_verify(root, paths, kg)
             libs = [treeimpl.verify_dir(root, pl.top, p, treeimpl.Recorder(False) if kg else None) for p in paths]
             all_ok = all(l.get('ret') is True for l in libs)
